@@ -173,11 +173,12 @@ def gen_only(binary, engine, sd, i, tier, extra_args=(), env=None):
     )
     for line in g.stdout.splitlines():
         if line.startswith("{"):
-            return json.loads(line).get("case")
-    return None
+            j = json.loads(line)
+            return j.get("case"), j.get("tags") or []
+    return None, []
 
 
-def isolate_anomaly(engine, res, tier, build_name="default", per_run_timeout=60, extra_args=(), env=None, rlimit_as=None):
+def isolate_anomaly(engine, res, tier, build_name="default", per_run_timeout=180, extra_args=(), env=None, rlimit_as=None):
     """A chunk stalled or the worker died (abort, stack overflow, memory limit): the worker's
     progress markers name the in-flight run; confirm it alone with a fresh (longer) limit
     before it is believed, then carry on with the rest of the chunk."""
@@ -202,6 +203,9 @@ def isolate_anomaly(engine, res, tier, build_name="default", per_run_timeout=60,
         alone = _run_chunk(binary, engine, sd, i, i + 1, tier, per_run_timeout, extra_args, env, rlimit_as)
         if alone.get("timeout") or alone.get("crashed"):
             kind = "hang" if alone.get("timeout") else f"abort-rc{alone.get('rc')}"
+            case, tags = gen_only(binary, engine, sd, i, tier, extra_args, env)
+            if tags:
+                kind += "+" + "+".join(tags)
             out.append(
                 {
                     "type": "violation",
@@ -210,7 +214,7 @@ def isolate_anomaly(engine, res, tier, build_name="default", per_run_timeout=60,
                     "run": i,
                     "key": f"{engine.upper()}/process/{kind}",
                     "detail": (alone.get("stderr") or f"run did not finish within {per_run_timeout}s on its own")[-600:],
-                    "case": gen_only(binary, engine, sd, i, tier, extra_args, env),
+                    "case": case,
                     "process_level": True,
                 }
             )
@@ -274,13 +278,13 @@ def replay_file(path, timeout=300):
     build_name = rec.get("build", "default")
     binary = build(build_name)  # always against /repo's current tree
     if rec.get("process_level"):
-        timeout = min(timeout, 90)
+        timeout = min(timeout, 200)
     try:
         r = subprocess.run(
             [binary, engine, "--replay", path], capture_output=True, text=True, timeout=timeout, env=rec_env(rec)
         )
     except subprocess.TimeoutExpired:
-        return {"reproduced": rec.get("key", "").endswith("/hang"), "key": rec.get("key"), "how": "timeout"}
+        return {"reproduced": "/process/hang" in rec.get("key", ""), "key": rec.get("key"), "how": "timeout"}
     for line in r.stdout.splitlines():
         if line.startswith("{"):
             j = json.loads(line)
@@ -529,6 +533,10 @@ LEVELS = {"C06": "fault_enumeration"}
 
 
 def run_check(prop, tier):
+    if prop in ("C11", "C20"):
+        import composite
+
+        return composite.run_c11(tier) if prop == "C11" else composite.run_c20(tier)
     if prop == "C10":
         import c10
 
@@ -539,13 +547,17 @@ def run_check(prop, tier):
 
 
 def replay(prop, path):
-    if prop == "C10":
+    if prop in ("C11", "C20"):
+        import composite
+
+        rep = composite.replay_any(prop, path)
+    elif prop == "C10":
         import c10
 
         rep = c10.replay_file(path)
     else:
         rep = replay_file(path)
-    print(json.dumps(rep))
+    print(json.dumps(rep)[:2000])
     if rep.get("reproduced"):
         print(f"VIOLATION property={prop} replay={path}")
         return 1
